@@ -289,7 +289,7 @@ def renameSame (o : Orc) (new : Name) (old : Option Name) : M (Option Name) :=
 
 /-- the first `if is_rotating:` block; yields the (possibly renamed) `old_path` -/
 def rotatePrep (o : Orc) (rotating : Bool) (old : Option Name) : M (Option Name) :=
-  if rotating then do
+  if Gen.termPrepTest rotating then do
     mkdirs
     renameSame o (createPath o) old
   else pure old
@@ -303,15 +303,15 @@ def compressOld (cfg : Cfg) (o : Orc) (old : Option Name) : M Unit :=
 /-- the `if is_rotating or self._rotation_function is None:` block -/
 def finishOld (cfg : Cfg) (o : Orc) (old : Option Name) : M Unit := do
   compressOld cfg o old
-  whenM cfg.hasRet (retention cfg o.ret)
+  whenM (Gen.termRetainTest cfg.hasRet) (retention cfg o.ret)
 
-/-- `_terminate_file(is_rotating=…)` -/
+/-- `_terminate_file(is_rotating=…)`; the guards are the kernels GENERATED from the source (`Gen.term…Test`) -/
 def terminate (cfg : Cfg) (o : Orc) (rotating : Bool) : M Unit := do
   let w ← getW
-  whenM w.cur.isSome closeFile
+  whenM (Gen.termCloseTest w.cur.isSome) closeFile
   let old ← rotatePrep o rotating w.cur
-  whenM (rotating || !cfg.hasRot) (finishOld cfg o old)
-  whenM rotating (createFile cfg (createPath o))
+  whenM (Gen.termFinishTest rotating cfg.hasRot) (finishOld cfg o old)
+  whenM (Gen.termRecreateTest rotating) (createFile cfg (createPath o))
 
 /-- one statement of the re-open branch of `_reopen_if_needed` -/
 def rStep (cfg : Cfg) (p : Name) : RStep → M Unit
